@@ -1,4 +1,5 @@
 import ChythonModel.Proofs.C09Api
+import ChythonModel.Proofs.C09Closure
 /-!
 # C09 — compiled (bit-mask) matcher ≡ reference matcher: property theorems
 
@@ -150,6 +151,29 @@ theorem mask_bond_eq_pyEq (q : QAtom) (qb : QBond) (a : MAtom) (b : MBond) (mdl 
     rfl rfl hq ha hb (qmdl_eq q a mdl qmdl hmdl hqmdl hc mdl_tables_agree)
   rw [pyEq_norm_eq q a hc hh] at h
   exact h
+
+/-! ## the closure test -/
+
+/-- `closure_tests_agree`: on distinct neighbour indices, distinct images of the query closure partners and non-zero bond words the
+    counter test of `_isomorphism.pyx` (as many matched neighbours other than the parent as query closures, and every query closure
+    finds a recorded neighbour whose bond word it covers) is the set-equality test of `_get_mapping` (the matched neighbours other
+    than the parent are exactly the images of the closure partners, and all closure bonds match). -/
+theorem closure_tests_agree (hits qb : List CBond) (images : List Nat) (k : Nat)
+    (hn : (hits.map (·.index)).Nodup) (hi : images.Nodup) (hz : ∀ h ∈ hits, h.bond ≠ 0)
+    (hq : qb.length = k) (him : images.length = k) :
+    closureCountTest hits qb images k = closureSetTest hits qb images :=
+  ChythonModel.Proofs.C09.closure_tests_agree hits qb images k hn hi hz hq him
+
+/-- the model of the `.pyx` closure block is that counter test on the data it reads -/
+theorem closureC_is_count_test (m : CMol) (q : CQuery) (qa : CQAtom) (mAtom : CAtom) (n : Nat) (matched : List Bool) (path : List Nat)
+    (nb qb : List CBond) (flags : List Bool) (images : List Nat)
+    (h1 : slice? m.bonds mAtom.from_ mAtom.to_ = some nb) (h2 : nb.mapM (fun jb => matched[jb.index]?) = some flags)
+    (h3 : slice? q.bonds qa.from_ qa.to_ = some qb) (h4 : qb.mapM (fun jb => path[jb.index]?) = some images) :
+    closureC m q qa mAtom n matched path = some (closureCountTest (hitsOf nb flags n) qb images qa.closure) :=
+  closureC_eq m q qa mAtom n matched path nb qb flags images h1 h2 h3 h4
+
+example : closureCountTest [⟨5, 2⟩, ⟨9, 7⟩] [⟨13, 7⟩, ⟨7, 2⟩] [7, 2] 2 = true ∧ closureSetTest [⟨5, 2⟩, ⟨9, 7⟩] [⟨13, 7⟩, ⟨7, 2⟩] [7, 2] = true := by
+  decide
 
 /-- the full-strength statement the property text asks for ("every element 1–118", any hydrogen state, any `h` value the query API
     accepts, any ring size): **false** for the current code — `Findings/C09.lean` proves `¬ MaskEqPyEqFull` from four witnesses
